@@ -62,8 +62,7 @@ class Chunks:
             self.off = lambda j: width * j
             I.lambda_axioms_add(lambda j: z3.Implies(
                 z3.And(j >= 0, j < n),
-                z3.And(z3.SubSeq(seq, width * j, z3.IntVal(width)) == elem(j),
-                       *[seq[width * j + k] == elem(j)[k] for k in range(min(width, 8))])))
+                z3.SubSeq(seq, width * j, z3.IntVal(width)) == elem(j)))
         else:
             off = z3.Function(I.fresh_name(name + "_off"), z3.IntSort(), z3.IntSort())
             self.off = off
@@ -76,6 +75,8 @@ class Chunks:
                        z3.SubSeq(seq, off(j), z3.Length(elem(j))) == elem(j))))
             I.lambda_axioms_add(lambda j: z3.Implies(z3.And(j >= 0, j <= n),
                                                      z3.And(off(j) >= 0, off(j) <= off(n))))
+        from . import models
+        models.set_known_len(seq, width * n if width is not None else self.off(n))
         I.assume(z3.Implies(n == 0, seq == z3.Empty(IntSeq)))
         I.assume(z3.Implies(n == 1, seq == elem(z3.IntVal(0))))
         I.ghost.setdefault("chunks", {})[seq.decl().name()] = self
@@ -141,12 +142,12 @@ def spawn(I: Interp, prefix: list[int]) -> tuple[Interp, dict[int, Any]]:
     """Child interpreter starting from a snapshot of the parent's state."""
     child = Interp(I.ex, prefix)
     child.pc = list(I.pc)
-    for p in I.pc:
-        child.solver.add(p)
+    child.pc_ids = set(I.pc_ids)
+    child.solver_assertions = list(I.solver_assertions)
+    child.pure_assertions = list(I.pure())
+    child._pure_upto = len(child.solver_assertions)
     child.lambda_axioms = list(I.lambda_axioms)
     child.index_terms = list(I.index_terms)
-    for a in I.instantiated_axioms():
-        child.solver.add(a)
     child.inputs = I.inputs
     child.fresh_no = I.fresh_no
     child.path_id = I.path_id
@@ -290,6 +291,8 @@ def template_for(I: Interp, st: Any, fr: Frame, seq: VList) -> None:
       * `k = k + d` with constant d          ->  k' = k + d*n
     Raising paths become `exists j. cond(j)` forks.  `break`/`return` in the body are refused.
     """
+    if I.template_index is not None:
+        raise Unsupported("nested loops over sequences of symbolic length")
     n = seq.n
     j = z3.Int(I.fresh_name("j"))
     tnames = [x.id for x in ast.walk(st.target) if isinstance(x, ast.Name)]
@@ -332,6 +335,7 @@ def template_for(I: Interp, st: Any, fr: Frame, seq: VList) -> None:
     def run(child: Interp, cfr: Frame) -> None:
         child.assume(z3.And(j >= 0, j < n))
         child.note_index(j)
+        child.template_index = j
         for name, (ph, old) in place.items():
             cfr.env[name] = type(old)(ph) if not isinstance(old, VInt) else VInt(ph, old.enum)
             if isinstance(old, VBytes):
@@ -395,7 +399,8 @@ def template_for(I: Interp, st: Any, fr: Frame, seq: VList) -> None:
                                   f"in {fr.qualname}")
             if contains_const(rest, ph):
                 raise Unsupported("accumulator used inside its own increment")
-            w = z3.simplify(z3.Length(rest))
+            from . import models
+            w = models.seq_len(rest)
             width = w.as_long() if z3.is_int_value(w) else None
             ch = Chunks(I, n, width, lambda k, rest=rest: z3.substitute(rest, (j, k)),
                         "fold_" + name)
@@ -643,12 +648,15 @@ def functional_map(I: Interp, e: Any, fr: Frame, src: VList, gen: Any) -> V:
     """[elt for target in seq] over a symbolic-length sequence as a functional list.
     The element expression must be total (no raising path) and pure; this is checked on a
     generic index."""
+    if I.template_index is not None:
+        raise Unsupported("nested comprehension over a sequence of symbolic length")
     j = z3.Int(I.fresh_name("cj"))
     n = src.n
 
     def run(child: Interp, cfr: Frame) -> None:
         child.assume(z3.And(j >= 0, j < n))
         child.note_index(j)
+        child.template_index = j
         child.assign(gen.target, src.at(j), cfr)
         cfr.env["__elt"] = child.eval(e.elt, cfr)
 
